@@ -7,11 +7,13 @@ package id62
 // and exist so that the round-trip and pattern lemmas are checked against the callee contracts.
 
 //@ func base62String
+//@   opt strings smt
 //@   requires len(id) == 16
 //@   ensures shape: len(result) == 22 && isB62(result)
 //@   ensures value: val62(result) == val256(id)
 
 //@ func parseBase62
+//@   opt strings smt
 //@   requires len(into) == 16
 //@   requires forall i int :: 0 <= i && i < 16 ==> into[i] == 0
 //@   ensures accept: isB62(s) && val62(s) < 340282366920938463463374607431768211456 ==> result == nil
@@ -19,21 +21,26 @@ package id62
 //@   ensures value: result == nil ==> val256(into) == absint(sval62(s))
 
 //@ func (UUID).String
+//@   opt strings smt
 //@   ensures shape: len(result) == 22 && isB62(result)
 //@   ensures value: val62(result) == val256(id[:])
 
 //@ func Parse
+//@   opt strings smt
 //@   ensures accept: isB62(s) && val62(s) < 340282366920938463463374607431768211456 ==> result1 == nil
 //@   ensures reject: (!parses62(s) || absint(sval62(s)) >= 340282366920938463463374607431768211456) ==> result1 != nil
 //@   ensures value: result1 == nil ==> val256(result0[:]) == absint(sval62(s))
 
 //@ func verifLemmaRoundTrip
+//@   opt strings smt
 //@   ensures roundtrip: result1 == nil && (forall i int :: 0 <= i && i < 16 ==> result0[i] == u[i])
 
 //@ func verifLemmaPattern
+//@   opt strings smt
 //@   ensures pattern: matches(initconst(PatternString), result)
 
 //@ func verifLemmaInjective
+//@   opt strings smt
 //@   ensures injective: result ==> (forall i int :: 0 <= i && i < 16 ==> a[i] == b[i])
 
 func verifLemmaRoundTrip(u UUID) (UUID, error) { return Parse(u.String()) }
